@@ -6,7 +6,7 @@ from checklib import cbytes, cbool, clist, cpair, cN
 
 ID = "C07"
 HARNESS = "c07"
-N_CASES = {"quick": 14, "thorough": 40}       # number of small data files; the harness derives the other classes from it
+N_CASES = {"quick": 12, "thorough": 40}       # number of small data files; the harness derives the other classes from it
 N_SEARCH = {"quick": 1, "thorough": 2}
 SHARD = 40
 HAS_MODEL_OUT = True
@@ -17,7 +17,10 @@ RULE = ("generated data files (all record types, few names so that many values s
         "implementation's own codec called line by line in one goroutine; a file with a rejected line must fail under "
         "every setting; plus the builder's sort + createBuckets on random key arrays (hook rdb.BucketsForVerif) and, "
         "compared in Go only, files of 2500 (quick) to 64000 (thorough) records with hot keys across bucket and batch "
-        "boundaries; non-trivial = distinct (file, codec configuration, setting) with at least one record read back, "
+        "boundaries; and two schedule-dependent classes compared in Go only: race-batch (240 lines, one key holding 180 "
+        "values spread over the file, batches of 1-4 records, 8 or 16 in parallel, 16 parser workers, 6 compilations) and "
+        "race-cdb (about 2000 subnet lines in which 124 prefix lengths occur exactly once, CDB with 4/8/16 workers, 80 "
+        "compilations); non-trivial = distinct (file, codec configuration, setting) with at least one record read back, "
         "or distinct bucket input with at least two keys")
 TRUSTED_BASE = [
     "the codec (Codec.ConvertLn, Acc.MarshalMap, Features.MarshalMap) is a parameter of model and theorems; the harness takes its outputs from the implementation",
